@@ -340,14 +340,14 @@ def canon(x):
         if x and x[0] == "crash":
             return ["crash"]
         y = [canon(e) for e in x]
-        if y and y[0] == "map":
-            y = ["map"] + sorted(y[1:], key=unparse)
+        if y and y[0] in ("map", "obj"):
+            y = [y[0]] + sorted(y[1:], key=unparse)
         return y
     return x
 
 
 def canon_str(s):
-    if "(map" not in s and "(crash" not in s:
+    if "(map" not in s and "(crash" not in s and "(obj" not in s:
         return s
     try:
         return unparse(canon(parse_sexp(s)))
